@@ -28,10 +28,13 @@ type Case struct {
 	Routing  [][]int  `json:"routing"` // per participant: ordered duties (0 = A, 1 = B), repeats allowed
 	// Batch[i][k] says whether participant i's k-th request travels in a batch call (next to a benign
 	// attestation of an ordinary account of that instance) instead of a single call.
-	Batch      [][]bool `json:"batch,omitempty"`
-	Concurrent bool     `json:"concurrent"`
-	ByKey      bool     `json:"by_key"`
-	ViaGRPC    bool     `json:"via_grpc"`
+	Batch [][]bool `json:"batch,omitempty"`
+	// RestartAfter[i] = k: participant i is cleanly restarted after its k-th delivery (sequential
+	// routing only; -1 = never).  After a restart the generated account is a start-up account.
+	RestartAfter []int `json:"restart_after,omitempty"`
+	Concurrent   bool  `json:"concurrent"`
+	ByKey        bool  `json:"by_key"`
+	ViaGRPC      bool  `json:"via_grpc"`
 }
 
 func root(a uint64, s byte) []byte {
@@ -71,6 +74,7 @@ func duties(c *Case) [2]duty {
 }
 
 type outcome struct {
+	restarts  int
 	generated bool
 	offered   [2]int
 	signed    [2]int
@@ -216,6 +220,15 @@ func run(c *Case) (*outcome, *vkit.Violation, error) {
 				if v := send(p, c.Routing[i][step], viaBatch(i, step)); v != nil {
 					viol = v
 				}
+				if i < len(c.RestartAfter) && c.RestartAfter[i] == step {
+					if err := p.node.Stack.Restart(); err != nil {
+						return o, nil, fmt.Errorf("restart of %d: %w", p.node.ID, err)
+					}
+					if err := p.node.Stack.SetProcess(p.node.Process); err != nil {
+						return o, nil, err
+					}
+					o.restarts++
+				}
 			}
 			if !any {
 				break
@@ -321,6 +334,11 @@ func TestC14(t *testing.T) {
 				}
 			}
 			c.Batch = append(c.Batch, paths)
+			ra := -1
+			if !c.Concurrent && rapid.IntRange(0, 3).Draw(rt, "restart") == 0 {
+				ra = rapid.IntRange(0, len(list)-1).Draw(rt, "restart_after")
+			}
+			c.RestartAfter = append(c.RestartAfter, ra)
 		}
 		stop := vkit.Watch(c, 120*time.Second)
 		o, v, err := run(c)
@@ -334,6 +352,9 @@ func TestC14(t *testing.T) {
 			vkit.S.Class("conflict-" + c.Conflict)
 			if c.Concurrent {
 				vkit.S.Class("concurrent-delivery")
+			}
+			if o.restarts > 0 {
+				vkit.S.Class("instance-restarted-between-deliveries")
 			}
 			mixed := false
 			for i := range c.Batch {
